@@ -109,14 +109,14 @@ class Expect:
             elif meth == "update":
                 o = a["other"]
                 od = z3.If(o == VNone, bs.dict_empty, z3.If(core.is_mapping(o), o, bs.dict_from(o)))
-                self.new_eq = lambda v: bs.dict_merge(bs.dict_merge(v, od), a["**"])
+                self.new_eq = lambda v: bs.plain(bs.dict_merge(bs.dict_merge(v, od), a["**"]))
                 self.rejects = "any"      # per-entry validation inside _update (C11)
                 self.raises = [(("TypeError", "ValueError"),
                                 z3.And(o != VNone, z3.Not(core.is_mapping(o)), z3.Not(smt.F("dict_from_ok", Val, BoolS)(o))))]
             elif meth == "reset":
                 d = a["data"]
                 self.raises = [("ValueError", z3.Not(core.is_mapping(d)))]
-                self.new_eq = lambda v: d
+                self.new_eq = lambda v: bs.plain(d)
                 self.rejects = "any"
                 self.whole = True
             elif meth == "__getitem__":
@@ -172,7 +172,7 @@ class Expect:
             elif meth == "reset":
                 d = a["data"]
                 self.raises = [("ValueError", z3.Not(core.is_sequence(d)))]
-                self.new_eq = lambda v: d
+                self.new_eq = lambda v: bs.plain(d)
                 self.rejects = "any"
                 self.whole = True
             elif meth == "__getitem__":
